@@ -103,6 +103,7 @@ func InterfaceFixture() (*fedlab.Config, *fedlab.Universe) {
 			{Name: "nodes", Type: fedlab.ListOf(str("Node"))},
 			{Name: "me", Type: str("User")},
 			{Name: "product", Type: str("Product")},
+			{Name: "featured", Type: str("Product")},
 		}},
 		{Kind: fedlab.KInterface, Name: "Node", Fields: nodeFields()},
 		{Kind: fedlab.KObject, Name: "User", Implements: []string{"Node"}, Fields: append(nodeFields(),
@@ -115,7 +116,7 @@ func InterfaceFixture() (*fedlab.Config, *fedlab.Universe) {
 	}}
 	cfg := &fedlab.Config{Super: super, Subgraphs: []*fedlab.Subgraph{
 		{Name: "home", Types: []*fedlab.SubType{
-			{Name: "Query", Fields: sf("node", "nodes")},
+			{Name: "Query", Fields: sf("node", "nodes", "featured")},
 			{Name: "Node", Fields: sf("id", "title", "secret")},
 			{Name: "User", Keys: []string{"id"}, Fields: sf("id", "title", "secret")},
 			{Name: "Product", Keys: []string{"id"}, Fields: sf("id", "title", "secret")},
@@ -152,6 +153,7 @@ func InterfaceFixture() (*fedlab.Config, *fedlab.Universe) {
 			{Name: "nodes", Val: flst(fref("User", "u1"), fref("Product", "p1"), fref("User", "u2"), fref("Product", "p2"))},
 			{Name: "me", Val: fref("User", "u1")},
 			{Name: "product", Val: fref("Product", "p1")},
+			{Name: "featured", Val: fref("Product", "p2")},
 		}},
 		ent("User", "u1", s("User", "u1", "email"), s("User", "u1", "notes")),
 		ent("User", "u2", s("User", "u2", "email"), fedlab.FV{Name: "notes", Val: fsc(fedlab.JN())}),
@@ -185,6 +187,9 @@ var InterfaceOps = []string{
 	`{ product { id sku label title } me { id notes } }`,
 	`{ node { __typename ... on User { id email } } nodes { __typename id } }`,
 	`{ a: nodes { s: secret ... on User { s: secret } } b: nodes { ... on Product { s: secret } } }`,
+	`{ featured { ship } }`,
+	`{ featured { title ship price label sku } }`,
+	`{ featured { id label } me { id email } }`,
 }
 
 func Fixtures() []Fixture {
